@@ -170,7 +170,7 @@ def _one_shot_case(rng, word, thumb, mode, te, regs, mpu, sct_extra=None, arch=7
     cfg = {'arch_version': arch, 'have_security_ext': False, 'have_virt_ext': False, 'have_lpae': False, 'memory_system_architecture': 'PMSA', 'number_of_mpu_regions': 12}
     cfg.update(G.impdef_switches(rng))           # implementation-defined choices must not touch DFAR/DFSR status/WnR of MPU and alignment faults
     ee = int(rng.random() < 0.3)
-    st = P.main_state(rng, cfg, mode, thumb, te, dict(G.mpu_sys(mpu)), e=int(rng.random() < 0.25), ee=ee)
+    st = P.main_state(rng, cfg, mode, thumb, te, dict(G.mpu_sys(mpu, nu=rng.getrandbits(1))), e=int(rng.random() < 0.25), ee=ee)
     st['sys']['sctlr'] = G.sctlr_value(m=1, a=0, u=1, te=te, v=0, br=0, ee=ee, **(sct_extra or {}))
     for i, v in enumerate(regs):
         st['R'][('R%dusr' % i) if i < 13 else ('SPusr', 'LRusr')[i - 13]] = v
@@ -676,7 +676,7 @@ def gen_revoke(rng):
     mpu = [(0, 0, 0)] * 12
     mpu[0] = (1 | 31 << 1, 0, 3 << 8)
     mpu[DREG] = (0 | 7 << 1, P.DBASE, rng.choice([0, 0, 5, 6]) << 8)          # the main program's data page (256 B), initially not enabled
-    core, meta = build_program_case(rng, allow=('alu', 'mem', 'mem', 'stack', 'loop', 'cond', 'it', 'multi'), extra_sys=dict(G.mpu_sys(mpu)), rec_data=False)
+    core, meta = build_program_case(rng, allow=('alu', 'mem', 'mem', 'stack', 'loop', 'cond', 'it', 'multi'), extra_sys=dict(G.mpu_sys(mpu, nu=rng.getrandbits(1))), rec_data=False)
     core['regs']['sys']['sctlr'] = G.sctlr_value(m=1, a=0, u=1, te=meta['te'], v=0, br=1, ee=meta.get('ee', 0))
     n = fault_free_ticks(core, meta) or 300             # (a program that does not finish fault-free is reported by the run, not regenerated)
     events = []
@@ -769,7 +769,7 @@ def gen_deny_sweep(item, rng, tier):
     devices = G.std_devices(high=False)
     G.set_data(devices[2], 0x700, bytes(rng.getrandbits(8) for _ in range(0x200)))
     mode = rng.choice(['usr', 'svc', 'svc', 'sys', 'irq'])
-    sys = dict(G.mpu_sys(mpu))
+    sys = dict(G.mpu_sys(mpu, nu=rng.getrandbits(1)))
     sys['sctlr'] = G.sctlr_value(m=1, a=0, u=1, te=thumb, v=0, br=1, ee=0)
     regs = {'cpsr': G.random_cpsr(rng, cfg, mode=mode, thumb=thumb, e=0) | 0xC0, 'pc': G.CODE, 'sys': sys, 'R': G.random_regfile(rng, cfg), 'spsr': G.random_spsrs(rng, cfg, valid=True)}
     # pointers around the lower edge of the denied block: word-aligned, so that multi-word transfers start allowed and run into it, or start inside it
@@ -791,6 +791,15 @@ class DenySweepObserver:
             k = next(i for i in range(0x800) if mem[i] != self.mem[i])
             b.violate('mpu.deny', type(arm.executed_opcode).__name__, 'denied_bytes_written', 'word %#x (pc %#x, cpsr %#x) changed byte +%#x of the no-access block' % (
                 arm.opcode, rec['pre_pc'], rec['pre'][1], k))
+        pmem = getattr(b, 'pre_priv', None)
+        if pmem is not None and rec['what'] == 'step' and not b.violations:
+            now = M.peek(arm, SW_PRIV, 0x100)
+            cls_ = type(arm.executed_opcode).__name__
+            if now != pmem and ((rec['pre'][1] & 0x1F) == 0x10 or (_is_unpriv(cls_) and not rec['exc'] and arm.opcode == getattr(b, 'placed_word', arm.opcode))):
+                # the privileged-only block: nothing executed in User mode, and no unprivileged load/store form executed in any mode, may write it
+                k = next(i for i in range(0x100) if now[i] != pmem[i])
+                b.violate('mpu.deny', _strip(cls_), 'privonly_bytes_written', 'word %#x (pc %#x, cpsr %#x, %s) changed byte +%#x of the privileged-only block' % (
+                    arm.opcode, rec['pre_pc'], rec['pre'][1], cls_, k))
         if rec['what'] != 'step' or rec['nie'] or rec['exc']:
             return
         kinds = [k for t, k in self.mon.taken if t == rec['tick']]
@@ -811,7 +820,7 @@ class DenySweepObserver:
             return
         priv = (rec['pre'][1] & 0x1F) != 0x10
         dec, _ = MPU.decide(self.regions, 1, 1, r.dfar, priv, bool((r.dfsr.value >> 11) & 1))
-        if dec == 'ok' and priv:
+        if dec == 'ok' and priv and _is_unpriv(name):
             dec, _ = MPU.decide(self.regions, 1, 1, r.dfar, False, bool((r.dfsr.value >> 11) & 1))       # LDRT/STRT-family: User permissions in a privileged mode
         if dec == 'ok':
             b.violate('mpu.deny', site, 'dfar_not_denied', '%s (word %#x) aborted with DFAR %#x (DFSR %#x), which the MPU model allows' % (name, arm.opcode, r.dfar, r.dfsr.value))
@@ -837,9 +846,11 @@ def run_deny_sweep(case):
 
     class DenyBoard(StreamBoard):
         pre_mem = None
+        pre_priv = None
 
         def after_poke(self, ci):
             self.pre_mem = M.peek(self.cores[ci].arm, SW_DENY, 0x800)
+            self.pre_priv = M.peek(self.cores[ci].arm, SW_PRIV, 0x100)
     b = DenyBoard(case, [])
     mon = EntryMonitor(b, 0, report=False)
     b.observers = [mon, DenySweepObserver(mon, MPU.regions_from_arm(b.cores[0].arm))]
